@@ -100,6 +100,15 @@ def run(ctx):
                         forms.append("%02d-%02d-%04d" % (d, m, y))
                     suf, tm = tsuffix()
                     add("hijri", y, m, d, rng.choice(forms) + suf, tm, mlen, ref, 30)
+    # which day it is TODAY plays no part for a fully written date: a share of the cases runs with the library's clock
+    # moved to days that are the 30th / 31st of a Jalali or Hijri month, a Gregorian month end, a leap day
+    # (2021-04-20 = 31 Farvardin 1400, 2021-09-22 = 31 Shahrivar 1400, 2022-03-20 = 29 Esfand 1400, 2021-05-12 = 30 Ramadan 1442,
+    #  2021-08-08 = 29 Dhu al-Hijjah 1442)
+    CLOCKS = [[2021, 4, 20], [2021, 9, 22], [2022, 3, 20], [2021, 5, 12], [2021, 8, 8], [2024, 2, 29], [2023, 12, 31], [2021, 1, 1], [2021, 3, 21]]
+    if not ctx.replay:
+        for i, c in enumerate(cases):
+            if i % 3 == 0:
+                c["fake_today"] = rng.choice(CLOCKS)
     results = core.run_cases(ctx, "harness.lib", "call_calendar", cases)
     records = []
     for i, (c, r) in enumerate(zip(cases, results)):
